@@ -157,7 +157,7 @@ func mxOps(t *gen.Type) *gen.Program {
 				&gen.Let{Name: bn, T: t, Init: &gen.Call{Fn: id, Args: []gen.Expr{mxLit(t, bv)}}, Annot: true},
 				&gen.ExprStmt{X: &gen.Call{Fn: arith, Args: []gen.Expr{&gen.Var{Name: an, T: t}, &gen.Var{Name: bn, T: t}}}})
 			nb := gen.Norm(t, bv)
-			if nb != 0 && !(t.Signed && nb == -1) {
+			if nb != 0 && !(t.Signed && nb == -1 && t.Bits >= 32) {
 				p.Main = append(p.Main, &gen.ExprStmt{X: &gen.Call{Fn: divs, Args: []gen.Expr{&gen.Var{Name: an, T: t}, &gen.Var{Name: bn, T: t}}}})
 			}
 		}
@@ -281,6 +281,7 @@ func matrixPrograms() []matrixProg {
 	}
 	out = append(out, matrixProg{name: "params", p: mxParams(), wasmOK: true})
 	out = append(out, matrixProg{name: "write-through", p: mxWriteThrough(), wasmOK: true})
+	out = append(out, matrixProg{name: "const-flow", p: mxConstFlow(), wasmOK: true})
 	return out
 }
 
@@ -331,6 +332,42 @@ func mxWriteThrough() *gen.Program {
 		&gen.Print{X: &gen.FieldX{X: cell, Name: "Lo", T: gen.I64}}, &gen.Print{X: &gen.FieldX{X: cell, Name: "V", T: gen.I64}}, &gen.Print{X: &gen.FieldX{X: cell, Name: "Hi", T: gen.I64}},
 		&gen.ExprStmt{X: &gen.Call{Fn: putf, Args: []gen.Expr{&gen.Borrow{Mut: true, X: &gen.FieldX{X: cell, Name: "V", T: gen.I64}}, mxLit(gen.I16, 7)}}},
 		&gen.Print{X: &gen.FieldX{X: cell, Name: "V", T: gen.I64}})
+	p.Main = m
+	return p
+}
+
+// mxConstFlow: compile-time-known identifiers (const, never-reassigned let) used in arithmetic
+// and negations in positions the compiler does not fold (call and print arguments) and then as
+// fixed-array indices, loop bounds and operands: evaluating one use early must not change another.
+func mxConstFlow() *gen.Program {
+	I32 := gen.I32
+	p := &gen.Program{Features: map[string]bool{}}
+	arrT := &gen.Type{K: gen.KArr, N: 5, Elem: I32}
+	show := &gen.Func{Name: "show", Params: []gen.Param{{Name: "x", T: I32}}, Ret: gen.TVoid, Body: []gen.Stmt{&gen.Print{X: &gen.Var{Name: "x", T: I32}}}}
+	p.Funcs = append(p.Funcs, show)
+	v := func(n string) *gen.Var { return &gen.Var{Name: n, T: I32} }
+	neg := func(e gen.Expr) gen.Expr { return &gen.Un{Op: "-", X: e} }
+	idx := func(e gen.Expr) gen.Expr { return &gen.Index{X: &gen.Var{Name: "arr", T: arrT}, I: e, T: I32} }
+	call := func(e gen.Expr) gen.Stmt { return &gen.ExprStmt{X: &gen.Call{Fn: show, Args: []gen.Expr{e}}} }
+	m := []gen.Stmt{
+		&gen.Let{Name: "arr", T: arrT, Annot: true, Init: &gen.ArrLit{T: arrT, Elems: []gen.Expr{mxLit(I32, 10), mxLit(I32, 20), mxLit(I32, 30), mxLit(I32, 40), mxLit(I32, 50)}}},
+		&gen.Let{Name: "k", T: I32, Init: mxLit(I32, 2), Const: true},
+		&gen.Let{Name: "j", T: I32, Init: mxLit(I32, 1), Annot: true},
+		&gen.Let{Name: "w", T: I32, Init: mxLit(I32, 3), Annot: true},
+		call(neg(v("k"))),
+	}
+	m = append(m, mxPrintLet("e1", I32, idx(v("k")))...)
+	m = append(m, call(neg(v("j"))), &gen.Print{X: neg(v("j"))})
+	m = append(m, mxPrintLet("e2", I32, idx(v("j")))...)
+	m = append(m, call(&gen.Bin{Op: "-", L: mxLit(I32, 0), R: v("w"), T: I32}), call(&gen.Bin{Op: "*", L: v("w"), R: mxLit(I32, -1), T: I32}))
+	m = append(m, mxPrintLet("e3", I32, idx(v("w")))...)
+	m = append(m, mxPrintLet("e4", I32, &gen.Bin{Op: "+", L: v("k"), R: &gen.Bin{Op: "*", L: v("j"), R: v("w"), T: I32}, T: I32})...)
+	m = append(m, &gen.Print{X: neg(v("k"))}, call(neg(neg(v("k")))))
+	m = append(m, mxPrintLet("e5", I32, idx(v("k")))...)
+	m = append(m, mxPrintLet("e6", I32, idx(&gen.Bin{Op: "+", L: v("k"), R: v("j"), T: I32}))...)
+	// negative constant index after a negation elsewhere
+	m = append(m, &gen.Let{Name: "q", T: I32, Init: mxLit(I32, -2), Const: true}, call(neg(v("q"))))
+	m = append(m, mxPrintLet("e7", I32, idx(v("q")))...)
 	p.Main = m
 	return p
 }
